@@ -254,6 +254,34 @@ def judge(ctx, text, case, original=False):
                       {'got': got, 'want': want})
 
 
+def run_longline(u, ctx):
+    """The boundary of what GnuPG covers of one cleartext line, approached byte by
+    byte, on lines that hold multi-byte characters (a limit counted in characters is
+    not the limit counted in bytes) and on pure ASCII lines."""
+    h = home()
+    names = ['plain-name.txt', '\u4e2d\u6587' * 20 + '.txt', 'caf\xe9-' + '\xe9' * 30,
+             '\U0001f600' * 12]
+    name = names[u['i'] % len(names)]
+    line = 'DATA %s 0 SHA1 %s' % (name, 'da39a3ee5e6b4b0d3255bfef95601890afd80709')
+    base = 'TIMESTAMP 2017-10-22T18:06:41Z\n' + line + '\nIGNORE x\n'
+    try:
+        signed = h.clearsign(base)
+    except RuntimeError as exc:
+        ctx.count('harness_error')
+        return
+    nbytes = len(line.encode('utf8'))
+    for total in list(range(19985, 20012)) + [20100, 30000, 65536]:
+        for tail in ('x', 'SHA1 ' + 'ab' * 20, 'MD5 ' + 'cd' * 16):
+            forged = signed.replace(line + '\n',
+                                    line + ' ' * (total - nbytes) + tail + '\n')
+            case = {'kind': 'gpgtext', 'text': forged, 'op': 'longline',
+                    'total': total, 'name': u['i'] % len(names)}
+            ctx.case(sig=('gpg', 'longline', u['i'] % len(names), total > 19993),
+                     case=case, nontrivial=True, klass='gpg-longline')
+            ctx.count('longline_cases')
+            judge(ctx, forged, case)
+
+
 def run(u, ctx):
     h = home()
     for j in range(u['n']):
